@@ -273,10 +273,12 @@ def generate(ctx):
     for _ in range(ctx.n(60, 600)):
         sd = G.gen_system(rng, maxn=3, maxL=ctx.n(32, 128))
         if sd['n'] >= 2 and rng.random() < 0.4: uniformise(rng, sd)
+        if rng.random() < 0.2: sd = G.scale_length(sd, rng.choice([1e-9, 1e-10, 1e-3, 1e-7]))          # lengths in metres / other units
         case = {'sys': sd, 'second': rng.random() < 0.4, 'continue_from_psys': rng.random() < 0.5}
         ctx.case('wiring', case, sd['n'] >= 2, tags=tags_of(sd) + (['second-prism'] if case['second'] else [])); suite_wiring(ctx, case)
     for _ in range(ctx.n(60, 500)):
         sd = G.gen_system(rng, maxn=3, maxL=ctx.n(24, 64))
+        if rng.random() < 0.2: sd = G.scale_length(sd, rng.choice([1e-9, 1e-10, 1e-3, 1e-7]))
         xs = [G.gen_x(rng, sd, k) for k in ('zero', rng.choice(['small', 'moderate']), rng.choice(['moderate', 'asym']))]
         case = {'sys': sd, 'xs': xs}
         ctx.case('cost', case, True, tags=tags_of(sd)); suite_cost(ctx, case)
